@@ -39,7 +39,7 @@ def leaf_arr(rng):
     if r < 0.5:
         return Obj([("items", rng.choice([True, Obj([("type", "number")]), False]))])
     if r < 0.7:
-        o = Obj([("contains", rng.choice([Obj([("const", "a")]), Obj([("type", "number")]), Obj([("const", True)])]))])
+        o = Obj([("contains", rng.choice([Obj([("const", "a")]), Obj([("type", "number")]), Obj([("const", True)]), True, Obj(), Obj([("title", "t")])]))])
         if rng.random() < 0.3:
             o.set("minContains", Num(str(rng.randint(0, 2))))
         if rng.random() < 0.2:
